@@ -1,15 +1,15 @@
-\* C02 reciprocity -- pinned (deviation switches of the pinned commit; emits verdicts instead of checking)
+\* C06 translation equivariance -- pinned (deviation switches of the pinned commit; emits verdicts instead of checking)
 CONSTANTS
   ShiftStyle = "halo" LevelStyle = "cursor" TruncStyle = "sym" AnalyticStyle = "flat" BCubic = "minus"
-  Sizes = {302, 403}
-  Cells = {11, 23}
-  Halos = {99, 0, 1, 2, 3, 4}
+  Sizes = {302, 402}
+  Cells = {23}
+  Halos = {0}
   ModeSet = {202, 402, 1212}
   NZs = {3}
   LevelLists = "single"
   Tabs = {1}
   Analytic = {FALSE}
-  Family = "recip"
+  Family = "translate"
 INIT Init
 NEXT Next
 CHECK_DEADLOCK FALSE
